@@ -152,9 +152,11 @@ def oracle(case, impl):
             return ["non-INVITE: response transmissions at %r, expected %r" % (sends, exp)]
         if res != [("D", t0)]:
             return ["non-INVITE: respond() results %r, expected Ok at %d" % (res, t0)]
-        late = [t for (t, k) in inj if k == "R" and t > t0 + TO]
+        # the first request after the window starts a new transaction (the harness layer takes and keeps it, unanswered);
+        # what follows are retransmissions of that one and are absorbed by it
+        late = [t for (t, k) in inj if k == "R" and t > t0 + TO][:1]
         if not rel and [t for (t, m) in layer] != late:
-            return ["requests surfaced to the layers at %r, only those after the window (%r) may" % (layer, late)]
+            return ["requests surfaced to the layers at %r, expected %r: the first one after the 64*T1 window starts a new transaction" % (layer, late)]
         end = t0 + (0 if rel else TO)
     else:
         ack = next((t for (t, k) in inj if k == "A" and t < t0 + TO), None)
